@@ -148,6 +148,29 @@ fn roundtrip_ty<Ty: EdgeType, Ix: IndexType + Serialize + DeserializeOwned>(c: &
     let (j, b): (Graph<W, W, Ty, Ix>, Graph<W, W, Ty, Ix>) = cross(&full, "vacancy-free StableGraph stream -> Graph")?;
     same(&j, &pm, "vacancy-free StableGraph stream read as Graph (JSON)")?;
     same(&b, &pm, "vacancy-free StableGraph stream read as Graph (bincode)")?;
+    // ... also when earlier removals left vacant slots beyond its bounds (count == bound still holds)
+    if plain.node_count() + 3 < lim && plain.edge_count() + 3 < lim {
+        let mut full2: StableGraph<W, W, Ty, Ix> = StableGraph::from(plain.clone());
+        let x = full2.add_node([9, 9]);
+        let y = full2.add_node([9, 9]);
+        let e1 = full2.add_edge(x, y, [9, 9]);
+        let e2 = full2.add_edge(full2.node_indices().next().unwrap(), x, [9, 9]);
+        let e3 = full2.add_edge(y, y, [9, 9]);
+        if c.salt % 2 == 0 {
+            full2.remove_edge(e3);
+            full2.remove_edge(e1);
+            full2.remove_edge(e2);
+        }
+        full2.remove_node(y);
+        full2.remove_node(x);
+        let (j, b): (Graph<W, W, Ty, Ix>, Graph<W, W, Ty, Ix>) = cross(&full2, "StableGraph without vacancies below its bounds (slots beyond them were used and freed) -> Graph")?;
+        same(&j, &pm, "StableGraph with freed trailing slots read as Graph (JSON)")?;
+        same(&b, &pm, "StableGraph with freed trailing slots read as Graph (bincode)")?;
+        let (j, b) = via(&full2, "StableGraph with freed trailing slots -> StableGraph")?;
+        same(&j, &pm, "StableGraph with freed trailing slots, JSON round trip")?;
+        same(&b, &pm, "StableGraph with freed trailing slots, bincode round trip")?;
+        obs.label("freed trailing slots");
+    }
     // wider index type (JSON is self-describing)
     let js = serde_json::to_string(&sg).unwrap();
     match guarded(|| serde_json::from_str::<StableGraph<W, W, Ty, usize>>(&js)) {
@@ -241,6 +264,52 @@ pub fn r_run(c: &RCase) -> Outcome {
             gm!(Directed)
         } else {
             gm!(Undirected)
+        }
+        // a Graph stream with parallel edges and repeated node weights read as a GraphMap: whatever
+        // from_graph makes of it, the result is a consistent GraphMap over the distinct weights
+        macro_rules! multi {
+            ($ty:ty) => {{
+                let mut g: Graph<i32, i32, $ty, u32> = Graph::default();
+                for i in 0..a.n {
+                    g.add_node(if c.salt % 3 == 0 { (i / 2) as i32 } else { i as i32 });
+                }
+                for &(x, y, w) in &a.edges {
+                    g.add_edge(NodeIndex::new(x), NodeIndex::new(y), w);
+                }
+                let js = serde_json::to_string(&g).unwrap();
+                match guarded(|| serde_json::from_str::<GraphMap<i32, i32, $ty>>(&js).map_err(|e| e.to_string())) {
+                    Err(p) => return fail("C17/deserialize-panics", format!("Graph stream {js} read as GraphMap panicked: {p}")),
+                    Ok(Err(_)) => obs.label("multigraph stream rejected by GraphMap"),
+                    Ok(Ok(m)) => {
+                        if let Err(e) = guarded(|| graphmap_consistent(&m)).unwrap_or_else(|p| Err(format!("panicked: {p}"))) {
+                            return fail("C17/accepted-graphmap-inconsistent", format!("Graph stream {js} read as GraphMap: {e}"));
+                        }
+                        let mut want: Vec<i32> = g.node_weights().copied().collect();
+                        want.sort();
+                        want.dedup();
+                        let mut got: Vec<i32> = m.nodes().collect();
+                        got.sort();
+                        ck!(got == want, "graph-as-graphmap-nodes", "Graph stream {js} read as GraphMap: nodes {got:?}, distinct weights {want:?}");
+                        for e in g.edge_indices() {
+                            let (x, y) = g.edge_endpoints(e).unwrap();
+                            ck!(m.contains_edge(g[x], g[y]), "graph-as-graphmap-edges", "Graph stream {js} read as GraphMap: edge {}-{} missing", g[x], g[y]);
+                        }
+                        for (x, y, w) in m.all_edges() {
+                            let ok = g.edge_indices().any(|e| {
+                                let (p, q) = g.edge_endpoints(e).unwrap();
+                                g[e] == *w && ((g[p] == x && g[q] == y) || (!<$ty as EdgeType>::is_directed() && g[p] == y && g[q] == x))
+                            });
+                            ck!(ok, "graph-as-graphmap-edges", "Graph stream {js} read as GraphMap: edge {x}-{y} weight {w} is not an edge of the graph");
+                        }
+                        obs.label("multigraph stream read as GraphMap");
+                    }
+                }
+            }};
+        }
+        if a.directed {
+            multi!(Directed)
+        } else {
+            multi!(Undirected)
         }
     }
     Ok(obs)
@@ -339,8 +408,8 @@ fn mut_strategy() -> impl Strategy<Value = Mut> {
 
 pub fn h_strategy(tier: Tier) -> BoxedStrategy<HCase> {
     let (n, m) = if tier == Tier::Quick { (8, 14) } else { (14, 30) };
-    (raw_graph(0, n, m, Some(true)), any::<u8>(), any::<bool>(), proptest::collection::vec(mut_strategy(), 1..4), 0u8..4)
-        .prop_map(|(g, salt, trailing, muts, target)| HCase { g, salt, trailing, muts, target })
+    (raw_graph(0, n, m, Some(true)), any::<u8>(), any::<bool>(), proptest::collection::vec(mut_strategy(), 1..4), 0u8..5)
+        .prop_map(|(g, salt, trailing, muts, target)| HCase { g, salt, trailing, muts, target: if target == 4 { 6 } else { target } })
         .boxed()
 }
 
@@ -566,13 +635,125 @@ pub fn judge_json(text: &str, target: u8, obs: &mut Obs) -> Result<(), Failure> 
             guarded(|| serde_json::from_str::<$t>(text).map_err(|e| e.to_string()))
         };
     }
-    match target % 6 {
+    match target % 8 {
         0 => judge_stable(js!(StableGraph<W, W, Directed, u8>), &what, obs),
         1 => judge_graph(js!(Graph<W, W, Directed, u8>), &what, obs),
         2 => judge_stable(js!(StableGraph<W, W, Directed, u32>), &what, obs),
         3 => judge_graph(js!(Graph<W, W, Directed, u16>), &what, obs),
         4 => judge_stable(js!(StableGraph<W, W, Undirected, u16>), &what, obs),
-        _ => judge_graph(js!(Graph<W, W, Undirected, u32>), &what, obs),
+        5 => judge_graph(js!(Graph<W, W, Undirected, u32>), &what, obs),
+        6 => judge_graphmap(js!(GraphMap<W, W, Directed>), &what, obs),
+        _ => judge_graphmap(js!(GraphMap<W, W, Undirected>), &what, obs),
+    }
+}
+
+/// Every consistency guarantee of a GraphMap that can be observed through its API: adjacency lists
+/// without duplicates whose entries are nodes and edges of the map, both directions in step,
+/// `all_edges` = the edge table = `edge_count`, and removal of everything leaves nothing behind.
+pub fn graphmap_consistent<N, E, Ty>(g: &GraphMap<N, E, Ty>) -> Result<(), String>
+where
+    N: petgraph::graphmap::NodeTrait + std::fmt::Debug,
+    E: Clone,
+    Ty: EdgeType + Clone,
+{
+    use petgraph::Direction::{Incoming, Outgoing};
+    let directed = Ty::is_directed();
+    let nodes: Vec<N> = g.nodes().collect();
+    let mut seen = std::collections::BTreeSet::new();
+    for &x in &nodes {
+        if !seen.insert(x) {
+            return Err(format!("node {x:?} listed twice"));
+        }
+    }
+    if nodes.len() != g.node_count() {
+        return Err(format!("nodes() yields {} items, node_count() = {}", nodes.len(), g.node_count()));
+    }
+    let (mut out_total, mut in_total, mut loops) = (0usize, 0usize, 0usize);
+    for &x in &nodes {
+        for dir in [Outgoing, Incoming] {
+            let nb: Vec<N> = g.neighbors_directed(x, dir).take(4 * nodes.len() + 8).collect();
+            let mut d = std::collections::BTreeSet::new();
+            for &y in &nb {
+                if !d.insert(y) {
+                    return Err(format!("neighbors_directed({x:?}, {dir:?}) lists {y:?} twice: {nb:?}"));
+                }
+                if !g.contains_node(y) {
+                    return Err(format!("neighbor {y:?} of {x:?} is not a node"));
+                }
+                let (p, q) = if dir == Outgoing { (x, y) } else { (y, x) };
+                if !g.contains_edge(p, q) || g.edge_weight(p, q).is_none() {
+                    return Err(format!("{y:?} is a {dir:?} neighbor of {x:?} but the edge table has no edge {p:?}->{q:?}"));
+                }
+                if !g.neighbors_directed(y, dir.opposite()).take(4 * nodes.len() + 8).any(|z| z == x) {
+                    return Err(format!("{y:?} is a {dir:?} neighbor of {x:?} but {x:?} is not an opposite-direction neighbor of {y:?}"));
+                }
+                if x == y && dir == Outgoing {
+                    loops += 1;
+                }
+            }
+            if dir == Outgoing {
+                out_total += nb.len();
+            } else {
+                in_total += nb.len();
+            }
+        }
+    }
+    let ec = g.edge_count();
+    if directed {
+        if out_total != ec || in_total != ec {
+            return Err(format!("adjacency lists hold {out_total} outgoing / {in_total} incoming entries, edge_count() = {ec}"));
+        }
+    } else if out_total + loops != 2 * ec {
+        return Err(format!("adjacency lists hold {out_total} entries ({loops} loops), edge_count() = {ec}"));
+    }
+    let mut pairs = std::collections::BTreeSet::new();
+    let mut cnt = 0usize;
+    for (x, y, _) in g.all_edges() {
+        cnt += 1;
+        let key = if directed || x <= y { (x, y) } else { (y, x) };
+        if !pairs.insert(key) {
+            return Err(format!("all_edges lists {x:?}-{y:?} twice"));
+        }
+        if !g.contains_node(x) || !g.contains_node(y) || !g.neighbors(x).take(4 * nodes.len() + 8).any(|z| z == y) {
+            return Err(format!("edge {x:?}-{y:?} of the edge table is not in the adjacency list of {x:?}"));
+        }
+    }
+    if cnt != ec {
+        return Err(format!("all_edges yields {cnt} items, edge_count() = {ec}"));
+    }
+    let mut g = g.clone();
+    for x in nodes {
+        if !g.remove_node(x) {
+            return Err(format!("remove_node({x:?}) returned false for a listed node"));
+        }
+    }
+    if g.edge_count() != 0 || g.node_count() != 0 || g.all_edges().next().is_some() {
+        return Err(format!("after removing every node: {} nodes, {} edges", g.node_count(), g.edge_count()));
+    }
+    Ok(())
+}
+
+fn judge_graphmap<N, E, Ty>(res: Result<Result<GraphMap<N, E, Ty>, String>, String>, what: &str, obs: &mut Obs) -> Result<(), Failure>
+where
+    N: petgraph::graphmap::NodeTrait + std::fmt::Debug,
+    E: Clone,
+    Ty: EdgeType + Clone,
+{
+    match res {
+        Err(p) => fail("C17/deserialize-panics", format!("{what}: deserializing a GraphMap panicked: {p}")),
+        Ok(Err(_)) => {
+            obs.label("rejected (GraphMap)");
+            Ok(())
+        }
+        Ok(Ok(g)) => {
+            obs.label("accepted (GraphMap)");
+            obs.nontrivial = true;
+            match guarded(|| graphmap_consistent(&g)) {
+                Ok(Ok(())) => Ok(()),
+                Ok(Err(m)) => fail("C17/accepted-graphmap-inconsistent", format!("{what}: accepted GraphMap is inconsistent: {m}")),
+                Err(p) => fail("C17/accepted-graphmap-inconsistent", format!("{what}: using the accepted GraphMap panicked: {p}")),
+            }
+        }
     }
 }
 
@@ -627,36 +808,7 @@ pub fn judge_bytes(bytes: &[u8], target: u8, obs: &mut Obs) -> Result<(), Failur
         2 => judge_stable(bc!(StableGraph<W, W, Directed, u32>), &what, obs),
         3 => judge_graph(bc!(Graph<W, W, Undirected, u32>), &what, obs),
         4 => judge_stable(bc!(StableGraph<W, W, Undirected, u8>), &what, obs),
-        _ => match bc!(GraphMap<i32, i32, Directed>) {
-            Err(p) => fail("C17/deserialize-panics", format!("{what}: deserializing a GraphMap panicked: {p}")),
-            Ok(Err(_)) => {
-                obs.label("rejected (GraphMap)");
-                Ok(())
-            }
-            Ok(Ok(g)) => {
-                obs.label("accepted (GraphMap)");
-                obs.nontrivial = true;
-                // internal consistency of an accepted GraphMap
-                let r = guarded(|| {
-                    let mut cnt = 0;
-                    for (x, y, _) in g.all_edges() {
-                        assert!(g.contains_node(x) && g.contains_node(y) && g.contains_edge(x, y), "edge between missing nodes");
-                        assert!(g.neighbors(x).any(|z| z == y), "edge not in the adjacency list");
-                        cnt += 1;
-                    }
-                    assert_eq!(cnt, g.edge_count());
-                    let mut g = g;
-                    for x in g.nodes().collect::<Vec<_>>() {
-                        g.remove_node(x);
-                    }
-                    assert_eq!(g.edge_count(), 0);
-                });
-                match r {
-                    Ok(()) => Ok(()),
-                    Err(p) => fail("C17/accepted-graphmap-inconsistent", format!("{what}: accepted GraphMap is inconsistent: {p}")),
-                }
-            }
-        },
+        _ => judge_graphmap(bc!(GraphMap<i32, i32, Directed>), &what, obs),
     }
 }
 
